@@ -90,6 +90,7 @@ func elections(ids []sesshist.ID) []elec {
 
 // Run decides C08.
 func Run(rep *report.Report, tier string) {
+	orders := rt.MapOrders(tier == "thorough")
 	ids := []sesshist.ID{{0, 0}, {0, 1}, {0, 2}, {1, 0}, {1, 1}, {2, 1}}
 	learnt := []*sesshist.ID{nil, {0, 2}, {1, 1}}
 	if tier == "thorough" {
@@ -113,7 +114,7 @@ func Run(rep *report.Report, tier string) {
 	var mu sync.Mutex
 	outcomes := map[string]int{}
 	// both iteration orders of the RIB's maps: Flush removes entries, groups and next-hops in map order
-	for _, order := range []int{0, 1} {
+	for _, order := range orders {
 		rt.MapOrder = order
 		var wg sync.WaitGroup
 		ch := make(chan job)
@@ -140,11 +141,11 @@ func Run(rep *report.Report, tier string) {
 		wg.Wait()
 	}
 	rt.MapOrder = 0
-	rep.Set("states", 2*len(jobs))
-	rep.Set("transitions", 2*len(jobs))
-	rep.Set("traces_validated_against_impl", 2*len(jobs))
-	rep.Set("evaluations", 2*len(jobs))
-	rep.Set("distinct_nontrivial", 2*len(jobs))
+	rep.Set("states", len(orders)*len(jobs))
+	rep.Set("transitions", len(orders)*len(jobs))
+	rep.Set("traces_validated_against_impl", len(orders)*len(jobs))
+	rep.Set("evaluations", len(orders)*len(jobs))
+	rep.Set("distinct_nontrivial", len(orders)*len(jobs))
 	rep.Set("rule", "every (RIB of the catalogue, Flush target, election field, learnt election id, map iteration order) tuple is one case, all distinct by construction; each runs on a fresh real server")
 	rep.Set("exhaustive", true)
 	rep.Set("distinct_outcomes", outcomes)
